@@ -68,6 +68,7 @@ pub fn eval_panel() -> Vec<Value> {
         json!([0, 1, 2, 3, 4, 5, 6, 7, 8, 9, 10, 11, 12, 13, 14, 15, 16, 17, 18, 19]),
         json!([[], {}, "", 0, false, null]),
         json!({"p": "(", "a": "(", "b": "x"}),
+        json!({"a": [0, 1, 2, 3, 4, 5, 6, 7, 8, 9, 10, 11, 12, 13, 14, 15, 16, [17, {"a": 18}]], "'a'": 1, "\\u": 2, "": 3, "0": {"1": [[]]}, "u": "\\", "1": -9223372036854775808i64, "b": 18446744073709551615u64}),
     ]
 }
 
